@@ -18,7 +18,7 @@
    Domain: enum columns are modelled without hash collisions (finding K3) and strings are below
    65536 bytes (finding K4); both are named in DESIGN.md. *)
 From stdpp Require Import gmap.
-From ColumnV Require Import GenShape Bytes Ops Buffer Store StoreProofs Link Check Widen.
+From ColumnV Require Import GenShape Bytes Ops Buffer Store StoreProofs Link Check Widen ReadInt.
 
 (* one transaction *)
 Theorem c01_commit_read : ∀ s t c col i,
@@ -59,6 +59,15 @@ Theorem c01_widening : ∀ v,
   widen_signed (widen_signed v) = widen_signed v ∧ widen_unsigned (widen_unsigned v) = widen_unsigned v.
 Proof. intro v. split; [apply signed_view_widen|]. split; [apply raw_widen_unsigned|]. split; [apply widen_signed_idem|apply widen_unsigned_idem]. Qed.
 Print Assumptions c01_widening.
+
+(* ... and that stored value is what the byte-level Reader.Int / Reader.Uint (ReadInt.v; diffed
+   against the real accessors on every numeric entry the codec engine decodes) return for the bytes
+   the writer produced *)
+Theorem c01_int_column_stores_what_reader_int_returns : ∀ v,
+  numeric v → wf_value v →
+  widen_signed v = V8 (Z.to_N (reader_int (vbytes v) mod 2 ^ 64)) ∧ widen_unsigned v = V8 (reader_uint (vbytes v)).
+Proof. intros v Hn Hw. split; [by apply int_column_stores_reader_int|by apply uint_column_stores_reader_uint]. Qed.
+Print Assumptions c01_int_column_stores_what_reader_int_returns.
 
 Theorem c01_stored_values_are_fixed : ∀ s t, CastFixed s → CastFixed (commit s t).
 Proof. exact commit_cast_fixed. Qed.
